@@ -415,6 +415,11 @@ Proof.
   destruct o; cbn [step_cost obj_ok] in *; unfold step_flops, step_size; try assumption.
   - apply Z.add_nonneg_nonneg; [assumption | apply Z.mul_nonneg_nonneg; assumption].
   - lia.
+  - destruct Ho as [Hn0 Hd0]. apply Z.add_nonneg_nonneg; apply Z.mul_nonneg_nonneg; assumption.
+  - destruct Ho as [Hn0 Hd0].
+    assert (0 <= den * dims_where app szs (fun j => surv nodes app S1 j || surv nodes app S2 j))%Z
+      by (apply Z.mul_nonneg_nonneg; assumption).
+    lia.
 Qed.
 
 Lemma tscore_nonneg o t : obj_ok o -> (0 <= tscore nodes app szs o t)%Z.
@@ -1768,3 +1773,26 @@ Proof.
 Qed.
 
 End Grow.
+
+(* ================================================================== *)
+(* rational weights: the scaled integer objectives *)
+
+Lemma tscoreQ_den1 nodes app szs f t :
+  tscore nodes app szs (OComboQ f 1) t = tscore nodes app szs (OCombo f) t /\
+  tscore nodes app szs (OLimitQ f 1) t = tscore nodes app szs (OLimit f) t.
+Proof.
+  induction t as [k|l [IHl1 IHl2] r [IHr1 IHr2]]; cbn [tscore]; [split; reflexivity|].
+  rewrite IHl1, IHr1, IHl2, IHr2. cbn [combine_sc step_cost]. rewrite !Z.mul_1_l. split; reflexivity.
+Qed.
+
+(* only the ratio num/den matters: multiplying both by c >= 0 multiplies every score by c, so the
+   order of trees (and the argmin) for num/den is that of the rational objective
+   sum (flops + (num/den) * size), resp. sum max(flops, (num/den) * size), scaled by den *)
+Lemma tscoreQ_homogeneous nodes app szs c n d t : (0 <= c)%Z ->
+  tscore nodes app szs (OComboQ (c * n) (c * d)) t = (c * tscore nodes app szs (OComboQ n d) t)%Z /\
+  tscore nodes app szs (OLimitQ (c * n) (c * d)) t = (c * tscore nodes app szs (OLimitQ n d) t)%Z.
+Proof.
+  intros Hc. induction t as [k|l [IHl1 IHl2] r [IHr1 IHr2]]; cbn [tscore]; [split; lia|].
+  rewrite IHl1, IHr1, IHl2, IHr2. cbn [combine_sc step_cost]. split; [ring|].
+  rewrite <- !Z.mul_assoc, Z.mul_max_distr_nonneg_l by exact Hc. ring.
+Qed.
